@@ -81,6 +81,28 @@ def extentOf (b : Bytes) (el : Element) (st en : Token) : List Rng :=
 def readyExtents (cfg : Cfg) (b : Bytes) (parts : List Part) : List Rng :=
   (elementsOf parts).flatMap fun (el, st, en) => if conditionHolds cfg el then extentOf b el st en else []
 
+/-- the extents of the elements still waiting for their condition (C17) -/
+def pendingExtents (cfg : Cfg) (b : Bytes) (parts : List Part) : List Rng :=
+  (elementsOf parts).flatMap fun (el, st, en) => if conditionPending cfg el then extentOf b el st en else []
+
+/- C15 / C17 at item level: the regions of the elements selected by `sel`, outermost first, in document order -
+    one per default-strategy element (nothing from inside it), opening part / inner regions / closing part per
+    unwrapped element, nothing for an unwrap-block that cannot be unwrapped (its inner regions are still listed) -/
+mutual
+def refRegions (sel : Element → Bool) (b : Bytes) : List Part → List Rng
+  | [] => []
+  | p :: ps => refRegionsPart sel b p ++ refRegions sel b ps
+def refRegionsPart (sel : Element → Bool) (b : Bytes) : Part → List Rng
+  | .text _ => []
+  | .element el st en ch =>
+    if sel el then
+      match extentOf b el st en with
+      | [r] => [r]
+      | [h, t] => [h] ++ refRegions sel b ch ++ [t]
+      | _ => refRegions sel b ch
+    else refRegions sel b ch
+end
+
 def inAny (rs : List Rng) (i : Nat) : Bool := rs.any fun r => r.contains i
 
 /-- `b` with every byte whose index lies in one of the ranges taken out -/
